@@ -329,6 +329,76 @@ example : useSlice [.int 1, .full, .slice .none (.const (-1)) (.const 2)] = true
     graphIndex [.int 1, .full, .slice .none (.const (-1)) (.const 2)] [2, 3, 4]
       = .ok [.drop 1, .pick [0, 1, 2], .pick [0, 2]] := by decide
 
+/-- **Whole expressions, single-Gather path.**  For every index expression of constant components
+for which the converter does *not* take the Slice path — exactly one Python int `i` (any sign, in
+or out of range) among any number of `:` — if the translated graph returns a tensor, NumPy returns
+the same tensor.  No hypothesis beyond the code's own case split is needed here. -/
+theorem graph_index_gatherpath_correct (comps : List Comp) (shape : List Nat) (r : View)
+    (hbasic : ∀ c ∈ comps, c.basic = true)
+    (hlen : comps.length ≤ shape.length)
+    (huse : useSlice comps = false)
+    (h : graphIndex comps shape = .ok r) : numpyIndex comps shape = .ok r := by
+  have hns : nonScalarsOf comps = [] :=
+    filter_zipIdx_none (fun c => c.kind == Kind.nonScalar) comps 0
+      (fun c hc => basic_kind_ne_nonScalar c (hbasic c hc))
+  have huse' := huse
+  simp only [useSlice, Bool.or_eq_false_iff, Bool.not_eq_false', decide_eq_false_iff_not] at huse'
+  obtain ⟨hsl, hsc⟩ := huse'
+  have hsl' : slicedOf comps = [] := by simpa using hsl
+  unfold graphIndex planGraph at h
+  rw [huse] at h
+  by_cases hempty : ((slicedOf comps).isEmpty && (scalarsOf comps).isEmpty && (nonScalarsOf comps).isEmpty) = true
+  · rw [if_pos hempty] at h; simp [bind, Except.bind] at h
+  rw [if_neg hempty, hns] at h
+  simp only [Bool.false_eq_true, if_false, List.nil_append, bind, Except.bind] at h
+  -- exactly one scalar
+  have hone : ∃ c j, scalarsOf comps = [(c, j)] := by
+    rw [hsl', hns] at hempty
+    cases hs : scalarsOf comps with
+    | nil => simp [hs] at hempty
+    | cons p rest =>
+      cases rest with
+      | nil => exact ⟨p.1, p.2, rfl⟩
+      | cons q rest' => rw [hs] at hsc; simp at hsc
+  obtain ⟨c, j, hs⟩ := hone
+  obtain ⟨_, hget, hothers⟩ := filter_zipIdx_singleton (fun c => c.kind == Kind.scalar) comps 0 c j hs
+  simp only [Nat.sub_zero] at hget hothers
+  have hck : (c.kind == Kind.scalar) = true := by
+    have : (c, j) ∈ scalarsOf comps := by rw [hs]; simp
+    simp only [scalarsOf, List.mem_filter] at this
+    exact this.2
+  have hcb := hbasic c (List.mem_of_getElem? hget)
+  obtain ⟨i, rfl⟩ : ∃ i, c = .int i := by
+    cases c with
+    | int i => exact ⟨i, rfl⟩
+    | full => exact absurd hck (by decide)
+    | tScalar v => simp [Comp.basic] at hcb
+    | tVec v => simp [Comp.basic] at hcb
+    | slice lo hi st => cases lo <;> cases hi <;> cases st <;> exact absurd hck (by intro h; cases h)
+  rw [hs] at h
+  simp only [List.filterMap_cons, gatherOp, List.filterMap_nil, runPlan, List.foldlM, runOp, bind,
+    Except.bind, pure, Except.pure] at h
+  have hmod : modifyPick j (gatherF i) (View.init shape) = .ok r := by
+    rw [← opGatherScalar_eq]
+    cases hg : opGatherScalar j i (View.init shape) with
+    | error e => simp [hg] at h
+    | ok v => simpa [hg] using h
+  have hskip : ∀ (j' : Nat) (c' : Comp), j' ≠ j → comps[j']? = some c' → c'.kind = Kind.skip := by
+    intro j' c' hne hc'
+    have h1 := hothers j' c' hne hc'
+    have h2 := filter_zipIdx_nil_forall (fun c => c.kind == Kind.sliced) comps 0 hsl' j' c' hc'
+    have h3 := basic_kind_ne_nonScalar c' (hbasic c' (List.mem_of_getElem? hc'))
+    cases hk : c'.kind <;> rw [hk] at h1 h2 h3 <;> first | rfl | (exact absurd h1 (by decide)) | (exact absurd h2 (by decide)) | (exact absurd h3 (by decide))
+  have hnp := gather_axiswise i comps shape j r hlen hget hskip hmod
+  unfold numpyIndex
+  rw [if_neg (by omega)]
+  have hv : comps.filter Comp.isVec = [] := filter_none _ _ (fun c hc => basic_not_vec c (hbasic c hc))
+  rw [hv, if_neg (by simp), needsTranspose_basic comps hbasic]
+  simpa using hnp
+
+example : useSlice [.full, .int (-2)] = false ∧
+    graphIndex [.full, .int (-2)] [2, 3] = .ok [.pick [0, 1], .drop 1] := by decide
+
 /-- Whole expressions, full statement: "if the translated graph returns a tensor, it is NumPy's".
 **Refuted** on the model of the unchanged converter by `A[i, 0]` (`i` a rank-0 tensor holding 1,
 `A : 2×3×4`): the plan gathers axis 0 (rank drops) and then gathers axis **1** of the reduced
